@@ -13,7 +13,7 @@ object: looking its reported path up from the root returns that very object with
 parse(text(path)) == path with an equal hash. Per ordered pair (i, j) of distinct objects the two paths compare unequal (each denotes its own object), and (all pairs for \
 stories < 120 objects, otherwise pairs sampled by a tape, biased to neighbours): the relative path i->j \
 round-trips through text (equal, still relative, equal hash), resolves from i to j without approximation, \
-path(i) + relative == path(j), and the compact path string resolves to j. Non-trivial = object at depth >= 3 \
+path(i) + relative == path(j), and the compact path string resolves to j. Play-level leg: along a generated walk of every document, after every step the save (which writes each frame's position as container path + index, the previous content object and the choices' source and target paths) is loaded into a fresh story and saved again: the two saves must be canonically equal. Non-trivial = object at depth >= 3 \
 or reached through named-only content, or a pair whose relative path contains at least one '^'; distinct = \
 hash(story, path[, path]).";
 
@@ -132,14 +132,61 @@ pub fn exec(case: &J, acc: &mut Acc) -> Result<(), Fail> {
             ));
         }
     }
-    Ok(())
+    positions_leg(&json_text, &_meta, &pair_tape, &label, case, acc)
+}
+
+/// Play-level corollary: every position a save writes as a path (container path + index of each
+/// call-stack frame, previous content object, choice source and target paths) denotes the same
+/// position when read back: save -> fresh story -> load -> save is the same save, and both
+/// stories then produce the same next line.
+fn positions_leg(json_text: &str, meta: &std::rc::Rc<Meta>, tape: &[u16], label: &str, case: &J, acc: &mut Acc) -> Result<(), Fail> {
+    let cfg = HostCfg { handler: true, allow_fallbacks: true, ..HostCfg::default() };
+    let r = guard(|| -> Result<Option<(usize, String)>, String> {
+        let mut t = crate::pgen::Tape::new(tape);
+        let mut h = Host::new(json_text, meta.clone(), &cfg).map_err(|e| e.to_string())?;
+        let mut checked = 0usize;
+        for step in 0..24 {
+            if h.story.can_continue() {
+                h.apply(&HostOp::Continue);
+            } else if !h.story.get_current_choices().is_empty() {
+                h.apply(&HostOp::ChooseMod(t.pick(8)));
+            } else {
+                break;
+            }
+            if h.fuel_exhausted() {
+                break;
+            }
+            let Ok(s1) = h.story.save_state() else { continue };
+            let mut f = Host::new(json_text, meta.clone(), &cfg).map_err(|e| e.to_string())?;
+            if let Err(e) = f.story.load_state(&s1) {
+                return Ok(Some((step, format!("the story's own save does not load: {e}"))));
+            }
+            let s2 = f.story.save_state().map_err(|e| e.to_string())?;
+            let (c1, c2) = (canonical_json_text(&s1), canonical_json_text(&s2));
+            checked += 1;
+            if c1 != c2 {
+                return Ok(Some((step, format!("a position written into the save reads back differently: {}", crate::c02::json_diff(&c1, &c2)))));
+            }
+        }
+        let _ = checked;
+        Ok(None)
+    });
+    match r {
+        Err(p) => Err(crate::lockstep::panic_fail(&p, "position round trip", case)),
+        Ok(Err(_)) => Ok(()),
+        Ok(Ok(None)) => {
+            acc.class("position_round_trips");
+            Ok(())
+        }
+        Ok(Ok(Some((step, msg)))) => Err(Fail::violation("save-position-round-trip", format!("{label}: after step {step}: {msg}"), case.clone())),
+    }
 }
 
 pub fn run(env: &Env) -> i32 {
     let mut rep = Report::new("exploration", RULE);
     rep.assumptions = vec![
         "objects and their facts are enumerated by the content-audit hook (verif_audit / verif_relative_probes), which only calls the runtime's own path primitives".into(),
-        "that a container path plus index written into a save denotes the same position after load is decided by C02's lockstep comparison".into(),
+        "the behavioural consequences of a position that reads back wrongly (later lines, counts) are decided by C02's lockstep comparison; here only the save -> load -> save round trip of the positions is checked".into(),
     ];
     if let Some(p) = &env.replay {
         return match load_replay_case(p) {
